@@ -210,9 +210,45 @@ def normalize(fn):
     if hasattr(fn, "body") and isinstance(fn.body, list):
         fn.body = _norm_block(fn.body)
         if isinstance(fn, (ast.FunctionDef, ast.AsyncFunctionDef)):
+            _fuse_single_use_temps(fn)
             _inline_pure_locals(fn)
             fn.body = _norm_block(fn.body)
     return fn
+
+
+def _fuse_single_use_temps(fn):
+    """`v = E` immediately followed by `T = v`, `v` occurring nowhere else in the function  ->  `T = E`
+    (sound for any E: nothing is evaluated in between).  In place."""
+    counts = {}
+    for n in ast.walk(fn):
+        if isinstance(n, ast.Name):
+            counts[n.id] = counts.get(n.id, 0) + 1
+
+    def go(stmts):
+        out = []
+        i = 0
+        while i < len(stmts):
+            a = stmts[i]
+            b = stmts[i + 1] if i + 1 < len(stmts) else None
+            if (isinstance(a, ast.Assign) and len(a.targets) == 1 and isinstance(a.targets[0], ast.Name)
+                    and isinstance(b, ast.Assign) and len(b.targets) == 1 and isinstance(b.value, ast.Name)
+                    and b.value.id == a.targets[0].id and counts.get(a.targets[0].id, 0) == 2
+                    and not _mentions(b.targets[0], a.targets[0].id)):
+                out.append(ast.copy_location(ast.Assign(targets=b.targets, value=a.value, lineno=a.lineno), a))
+                i += 2
+                continue
+            for field in ("body", "orelse", "finalbody"):
+                val = getattr(a, field, None)
+                if isinstance(val, list) and val and isinstance(val[0], ast.stmt):
+                    setattr(a, field, go(val))
+            if isinstance(a, ast.Try):
+                for h in a.handlers:
+                    h.body = go(h.body)
+            out.append(a)
+            i += 1
+        return out
+    fn.body = go(fn.body)
+    ast.fix_missing_locations(fn)
 
 
 def _subst(node, mapping, shadow=frozenset()):
